@@ -50,6 +50,69 @@ def sentence_script(sent, to, iid=1):
     return rows
 
 
+def exhaustive_sentences(ctx, to, depth, max_paths):
+    """C12, bounded-exhaustive part: TLC prints the complete transition graph of Sender || scanner (finite,
+    VIEW with saturated ages); every path of that graph is a sentence of the documented grammar together
+    with the intended reports.  All paths 'number selection, then `depth` further feeds / polls / ticks'
+    are replayed into the real scanner (pruned at random only if there are more than max_paths)."""
+    consts = sender_constants([0], [0, 127], to, False)
+    cfg = "SPECIFICATION Spec\nCONSTANTS\n" + "".join("  %s = %s\n" % kv for kv in consts.items())
+    cfg += "VIEW View\nACTION_CONSTRAINT EmitEdge\nCHECK_DEADLOCK FALSE\n"
+    res = tlc(ctx.work, "MC_Sender", cfg, workers=1, timeout=1500, tag="graph")
+    if not res.ok or res.errors:
+        raise ToolError("graph dump of MC_Sender failed:\n" + tlc_text(res))
+    adj = {}
+    first = None
+    for t in res.of("EDGE"):
+        o = json.loads(t[1])
+        pk = json.dumps(o["p"], sort_keys=True)
+        qk = json.dumps(o["q"], sort_keys=True)
+        if first is None:
+            first = pk
+        adj.setdefault(pk, {})[json.dumps(o["e"], sort_keys=True)] = qk
+    number = lambda e: e["op"] == "feed" and e["m"][0] // 16 == 11 and e["m"][1] in (98, 99, 100, 101)
+    unit = lambda e: (e["op"] == "feed" and e["m"][0] // 16 == 11 and e["m"][1] in (6, 38, 96, 97)) or e["op"] in ("poll", "tick")
+    # every way to select a number from the initial state
+    starts = []
+    for e1, q1 in adj[first].items():
+        if number(json.loads(e1)):
+            for e2, q2 in adj.get(q1, {}).items():
+                if number(json.loads(e2)):
+                    starts.append(([json.loads(e1), json.loads(e2)], q2))
+    paths = []
+
+    def dfs(node, evs, left):
+        paths.append(list(evs))
+        if left == 0:
+            return
+        for ek, q in adj.get(node, {}).items():
+            e = json.loads(ek)
+            if unit(e):
+                evs.append(e)
+                dfs(q, evs, left - 1)
+                evs.pop()
+
+    for evs, node in starts:
+        dfs(node, list(evs), depth)
+    total = len(paths)
+    # keep maximal paths only (every prefix is replayed as part of a longer path)
+    maximal = [p for p in paths if len(p) == 2 + depth]
+    pruned = False
+    if len(maximal) > max_paths:
+        maximal = ctx.rng.sample(maximal, max_paths)
+        pruned = True
+    rows = []
+    for pth in maximal:
+        rows += sentence_script(pth, to)
+    ctx.extra = getattr(ctx, "extra", {})
+    ctx.extra.setdefault("bounded_exhaustive_sentences", []).append(
+        {"timeout": to, "steps_after_selection": depth, "selections": len(starts), "paths_in_graph": total,
+         "maximal_paths_replayed": len(maximal), "pruned_at_random": pruned})
+    log("exhaustive sentences to=%s depth=%d: %d selections, %d maximal paths (%s)" % (
+        to, depth, len(starts), len(maximal), "pruned" if pruned else "complete"))
+    return rows
+
+
 def c12(ctx):
     for to in (0, 2, -1):
         run_mc(ctx, "MC_Sender", sender_constants([0], [0, 1, 127] if ctx.quick else [0, 1, 64, 127], to, False),
@@ -85,11 +148,14 @@ def c12(ctx):
         if len(ctx.samples) < 2:
             ctx.samples.append({"generated_sentence_prefix": sents[0][:12], "channels": sorted(chans), "timeout": to})
     res, trace = run_script(ctx, rows, "sender-sentences")
+    rows = exhaustive_sentences(ctx, 2, ctx.q(3, 4), ctx.q(40000, 400000)) + exhaustive_sentences(ctx, 0, ctx.q(3, 4), ctx.q(20000, 200000))
+    run_script(ctx, rows, "bounded-exhaustive-sentences")
     run_script(ctx, gen.roundtrip_poll(ctx.rng, ctx.q(4000, 40000)), "encode-wait-poll")
     run_script(ctx, gen.sweep_pn_values(ctx.rng, "poll", step=ctx.q(3, 1), to=ctx.rng.choice([0, 1, 5])), "value-sweep-poll")
     canary(ctx, trace, lambda rows_, rng: _corrupt_exp(rows_, rng))
     vacuity(ctx, ["exp", "grp.rtp", "poll.late.pending", "poll.early.pending"])
-    ctx.extra = {"sentences_generated_by_tlc": nsent}
+    ctx.extra = getattr(ctx, "extra", {})
+    ctx.extra["sentences_generated_by_tlc"] = nsent
     ctx.rule = ("design: Sender (documented grammar, with early/late poll placement, time steps, non-contributing "
                 "messages) || polling-scanner machine to a fixpoint for timeouts {0,2,Inf}: reported = intended on "
                 "every step; 'encode, wait, poll' invariant in every reachable machine state; code: sentences "
